@@ -1085,6 +1085,84 @@ pub fn child_main(args: &[String]) -> i32 {
                 .expect("spawn thread");
             h.join().unwrap_or(6)
         }
+        Some("sanwork") => {
+            // plain workload for sanitizer / valgrind / Miri runs: no monitors, no event log
+            // pfv child sanwork <single|threads|tiny> <seed> <n>
+            let mode = args[1].as_str();
+            let seed: u64 = args[2].parse().unwrap();
+            let n: usize = args[3].parse().unwrap();
+            let sp = Space::full();
+            match mode {
+                "single" => {
+                    let mut total = 0usize;
+                    for i in 0..n {
+                        let mut cfg = matrix_case(i, seed, &sp);
+                        if cfg.min > 400 || cfg.max > 400 {
+                            cfg.min = 60;
+                            cfg.max = 300;
+                        }
+                        let mut g = cfg.build();
+                        let out = gen_once(&mut g, &cfg.entropy);
+                        if let Outcome::Ok(b) = &out {
+                            total += b.len();
+                        }
+                        if i % 3 == 0 {
+                            g.reset();
+                            let _ = gen_once(&mut g, &cfg.entropy);
+                        }
+                    }
+                    println!("sanwork single: {} cases, {} bytes", n, total);
+                    0
+                }
+                "tiny" => {
+                    // very small generations (interpreters): fuzzer-bytes mode, few opcodes
+                    let mut total = 0usize;
+                    for i in 0..n {
+                        let mut rng = Rng::new(mix(seed, i as u64));
+                        let cfg = Config {
+                            min: 4,
+                            max: 9,
+                            mutators: vec![Mk::Bitflip, Mk::Stringlen, Mk::Character],
+                            rate: 0.5,
+                            ..Config::default_for((i % 6) as u8, Entropy::Bytes(rng.bytes(64)))
+                        };
+                        let mut g = cfg.build();
+                        if let Outcome::Ok(b) = gen_once(&mut g, &cfg.entropy) {
+                            total += b.len();
+                        }
+                    }
+                    println!("sanwork tiny: {} cases, {} bytes", n, total);
+                    0
+                }
+                _ => {
+                    let cases = c07_cases(seed, n);
+                    let reference: Vec<Vec<u8>> = cases.iter().map(run_bytes).collect();
+                    let bad = std::sync::atomic::AtomicUsize::new(0);
+                    std::thread::scope(|s| {
+                        for t in 0..8usize {
+                            let cases = &cases;
+                            let reference = &reference;
+                            let bad = &bad;
+                            s.spawn(move || {
+                                for k in 0..cases.len() {
+                                    let i = (k * 7 + t * 13) % cases.len();
+                                    if run_bytes(&cases[i]) != reference[i] {
+                                        bad.fetch_add(1, std::sync::atomic::Ordering::Relaxed);
+                                    }
+                                }
+                            });
+                        }
+                    });
+                    let b = bad.load(std::sync::atomic::Ordering::Relaxed);
+                    println!("sanwork threads: {} cases x 8 threads, {} mismatches", n, b);
+                    if b > 0 {
+                        7
+                    } else {
+                        0
+                    }
+                }
+            }
+        }
         _ => {
             eprintln!("pfv child: unknown mode");
             64
